@@ -1,3 +1,3 @@
 SPECIFICATION Spec
-INVARIANTS DriverClaimC05 C05Inv SylInv
+INVARIANTS DriverClaimC05 C05Inv SylInv SectionsInv
 CHECK_DEADLOCK FALSE
